@@ -219,3 +219,16 @@ more("C13", "The table of tracked blocks stores disguised pointers, so LeakSanit
 more("C15", "After a set refused with EXIST the very same request is repeated with the replace flag switched on, without setting the struct up anew (half of such refusals).")
 more("C18", "A third of the callback look-ups name a key nobody has (the look-up misses, the callback refuses): a refusal must not write to the shared keyring.")
 more("C20", "Every second multi-key round puts one or two entries that do not import between, before or after the good ones: every good key is still written back.")
+
+# ---- round 14 (free choice, aimed at what the harness is least likely to produce) ----
+more("C02", "Route 11: a key with an alg attribute is preset by setkey(none, key), then the callback replaces the key only (the preset key's alg does not travel with it).")
+more("C03", "Route 11 (preset key with alg, callback replaces the key only) is part of the matrix.")
+more("C04", "A quarter of the verifications run on a clock that advances one second per reading (a verification reads the clock once); a quarter of the random histories register a callback that reconfigures its own checker (claim_set/claim_del/time_leeway logged from inside the callback): that call is the most recent one for the token in hand.")
+more("C07", "Key templates include non-JOSE curves the crypto library knows (sect571r1, sect571k1, sect409r1, brainpoolP512r1, secp224r1): points wider than P-521's.")
+more("C08", "Keys on sect571r1 and brainpoolP512r1 (thorough: also sect571k1, sect409r1, secp224r1).")
+more("C13", "Token 44 expires one second after the clock value of the histories and is verified on a clock that advances with every reading.")
+more("C14", "A token that is valid for exactly one second is verified on a ticking clock: verdict, flag and message belong to one reading.")
+more("C15", "JSON values include reals that need 16-17 significant digits, integers beyond 2^53 and extreme exponents; every read, compact and pretty, gives the stored number back.")
+more("C17", "Scenarios that append to a keyring in use (jwks_load / jwks_load_strn into a set whose first key a checker points to): whatever happens to the append, the older key stays the first item and still verifies.")
+more("C19", "Two more operations: replacements of exp / iss / alg by strings that are not UTF-8 (refused by the library, still an edit attempt on the handed jwt_t).")
+more("C20", "stdin lines of every length within 6 of 8192, 16384, 32768 and 65536 characters, each followed by a failing line, by a good one, and in the middle of a list.")
